@@ -393,7 +393,7 @@ class RecipeGridRendererMixin:
     title_serving_count_pattern = re.compile(
         (
             r"(?P<space>\s+)"
-            r"(?P<preposition>((to\s+)?serves?|for|makes|serving)\s+)"
+            r"(?P<preposition>((to\s+)?serves?|to\s+make|for|makes|serving)\s+)"
             r"(?P<servings>[0-9]+)\s*"
             r"$"
         ),
